@@ -126,6 +126,81 @@ def probe_tape():
     return table
 
 
+def probe_duals():
+    """dual()/undual() kind selection of MultiVector and TapeRecorder for r = 0, 1, 2: (class, method, r) -> operator"""
+    from kingdon import Algebra, MultiVector
+    from kingdon.taperecorder import TapeRecorder
+    rows = []
+    for r, sig in ((0, [1, 1]), (1, [0, 1]), (2, [0, 0])):
+        for cls in ('mv', 'tape'):
+            for meth in ('dual', 'undual'):
+                alg = Algebra(signature=sig)
+                rec = []
+
+                class F:
+                    def __init__(self, n): self.__name__ = n
+
+                class Stub:
+                    def __init__(self, name): self.name = name
+                    def __call__(self, *args):
+                        rec.append(self.name); return 'R'
+                    def __getitem__(self, keys):
+                        rec.append(self.name); return ((0,), F(self.name))
+                for name in list(alg.registry):
+                    setattr(alg, name, Stub(name))
+                obj = MultiVector.fromkeysvalues(alg, (1,), [2]) if cls == 'mv' else TapeRecorder(alg, 'A', (1,))
+                try:
+                    getattr(obj, meth)()
+                    res = rec[0] if len(rec) == 1 else 'composite'
+                except Exception as e:
+                    res = 'raises:' + type(e).__name__
+                rows.append((cls, meth, r, res))
+    return rows
+
+
+def probe_number_operands():
+    """a plain number on the other side: which operator, and is the number the left (True) or right operand"""
+    from kingdon import Algebra, MultiVector
+    from kingdon.taperecorder import TapeRecorder
+    rows = []
+    for cls in ('mv', 'tape'):
+        for m in ['__mul__', '__rmul__', '__xor__', '__rxor__', '__or__', '__ror__', '__and__', '__rand__', '__add__', '__radd__',
+                  '__sub__', '__rsub__', '__truediv__', '__rtruediv__', '__rshift__', '__rrshift__', '__matmul__', '__rmatmul__']:
+            alg = Algebra(2)
+            rec = []
+
+            class F:
+                def __init__(self, n): self.__name__ = n
+
+            class Stub:
+                def __init__(self, name): self.name = name
+                def __call__(self, *args):
+                    rec.append((self.name, tuple('num' if isinstance(a, int) else 'obj' for a in args))); return 'R'
+                def __getitem__(self, keys):
+                    rec.append((self.name, keys)); return ((7,), F(self.name + '!'))
+            for name in list(alg.registry):
+                setattr(alg, name, Stub(name))
+            try:
+                if cls == 'mv':
+                    getattr(MultiVector.fromkeysvalues(alg, (1,), [2]), m)(5)
+                    if len(rec) == 1:
+                        rows.append((cls, m, rec[0][0], rec[0][1][0] == 'num', 1))
+                    else:
+                        rows.append((cls, m, 'composite', False, len(rec)))
+                else:
+                    r = getattr(TapeRecorder(alg, 'A', (1,)), m)(5)
+                    if len(rec) == 1:
+                        opn = rec[0][0]
+                        left = r.expr == f'{opn}!((5,), A)'
+                        right = r.expr == f'{opn}!(A, (5,))'
+                        rows.append((cls, m, opn if (left or right) else 'other', left, 1))
+                    else:
+                        rows.append((cls, m, 'composite', False, len(rec)))
+            except Exception as e:
+                rows.append((cls, m, 'raises:' + type(e).__name__, False, 0))
+    return rows
+
+
 def probe_invert_grades():
     import kingdon.codegen as cg
     res = []
@@ -191,6 +266,31 @@ def generate():
     inv = probe_invert_grades()
     lines.append('/-- grades mod 4 whose coefficients are negated -/')
     lines.append('def invertGrades : List (String × List Nat) := [' + ', '.join(f'({lstr(n)}, [{", ".join(map(str, g))}])' for n, g in inv) + ']\n')
+    # behavioural probe of Algebra equality: does changing this aspect make two algebras unequal?
+    def eqprobe():
+        A = Algebra
+        rows = []
+        rows.append(('signature-order', A(signature=[1, -1]) != A(signature=[-1, 1])))
+        rows.append(('signature-null-position', A(signature=[0, 1, 1]) != A(signature=[1, 1, 0])))
+        rows.append(('pqr', A(2, 0, 0) != A(1, 1, 0)))
+        rows.append(('basis-spelling', A(2, basis=['e', 'e1', 'e2', 'e12']) != A(2, basis=['e', 'e1', 'e2', 'e21'])))
+        rows.append(('basis-generator-order', A(2, basis=['e', 'e1', 'e2', 'e12']) != A(2, basis=['e', 'e2', 'e1', 'e12'])))
+        rows.append(('custom-vs-default-basis', A(2, 0, 1) != A.fromname('2DPGA')))
+        rows.append(('start_index', A(2, start_index=0) != A(2, start_index=1)))
+        rows.append(('cse', A(2, cse=True) != A(2, cse=False)))
+        rows.append(('graded', A(2, graded=True) != A(2, graded=False)))
+        rows.append(('same', A(signature=[1, -1, 0]) != A(signature=[1, -1, 0])))
+        return rows
+    lines.append('/-- Algebra.__eq__ probed: (aspect changed, algebras compare unequal) -/')
+    lines.append('def equalityProbe : List (String × Bool) := [' + ', '.join(f'({lstr(a)}, {str(bool(b)).lower()})' for a, b in eqprobe()) + ']\n')
+    lines.append('/-- dual()/undual() kind selection: (class, method, r, operator) -/')
+    lines.append('def dualDispatch : List (String × String × Nat × String) := [')
+    lines.append(',\n'.join(f'  ({lstr(c)}, {lstr(m)}, {r}, {lstr(o)})' for c, m, r, o in probe_duals()))
+    lines.append(']\n')
+    lines.append('/-- a plain number as the other operand: (class, method, operator, number is the LEFT operand, operator calls) -/')
+    lines.append('def numberDispatch : List (String × String × String × Bool × Nat) := [')
+    lines.append(',\n'.join(f'  ({lstr(c)}, {lstr(m)}, {lstr(o)}, {str(bool(l)).lower()}, {n})' for c, m, o, l, n in probe_number_operands()))
+    lines.append(']\n')
     lines.append('end Kingdon.Gen')
     return '\n'.join(lines) + '\n'
 
